@@ -96,7 +96,7 @@ func c24NewWorld() (*c24World, error) {
 			ia := addr.MustIAFrom(addr.ISD(isdN), addr.AS(0xff00_0000_0100+uint64(isdN)*0x10+uint64(a)))
 			as := &c24AS{ia: ia,
 				shortNA: now.Add(2 * time.Hour), lateNB: now.Add(-5 * time.Minute),
-				splitANA: now.Add(time.Hour), splitBN: now.Add(-20 * time.Minute),
+				splitANA: now.Add(2 * time.Hour), splitBN: now.Add(-20 * time.Minute),
 				edgeNB: now.Add(-time.Hour), edgeNA: now.Add(3 * time.Hour),
 			}
 			curve := elliptic.P256()
@@ -338,6 +338,12 @@ func (c *c24Ctx) check(cs c24Case, pb *cppb.PathSegment, beacon bool, v infra.Ve
 		cs.Expect = "verifies"
 	}
 	fail := func(what string) {
+		// the shortest-lived fixture certificates end 2 h after setup; a run
+		// that is still going by then cannot judge positive cases any more
+		if wantOK && time.Since(c.w.now0) > 115*time.Minute {
+			r.Inconclusive("fixture-certificates-expired-during-run")
+			return
+		}
 		cs.Segment = mon.Hex(raw)
 		r.Violation(key, what, cs)
 	}
@@ -822,7 +828,7 @@ func checkC24(r *mon.Run) {
 		"to VerifySegment without structural validation. class = mutation kind x verifier configuration x where it was detected"
 	r.Assumptions = []string{
 		"oracle: verifies <=> untouched or truncated tail (or a re-signed positive control); everything else must be rejected by parser or VerifySegment",
-		"all certificates and TRCs are valid at the wall-clock time of the run with margins of >= 1 h, so no verdict depends on time.Now()",
+		"all certificates and TRCs are valid at the wall-clock time of the run with margins of >= 2 h (run time is capped below that by the watchdog), so no verdict depends on time.Now()",
 		"nothing is asserted about alterations of the last entry's own signature (ECDSA malleability); they are recorded as events",
 		"the remote trust fetcher is a stub that has no additional material",
 		"hash collisions / signature forgeries are not expected",
